@@ -465,6 +465,9 @@ fn main() {
                 if parts.next().is_some() { rep.class("replayed-after-transient-disagreement"); }
                 rep.class(&format!("conc:{}{}", if conc.mid { "mid" } else { "line" }, if conc.chunked { "+chunked" } else { "+length" }));
                 rep.nontrivial(&cases[i].raw.to_string());
+                if mm.is_empty() && rep.samples.len() < 6 && i % 97 == 0 {
+                    rep.sample(json!({"scenario": cases[i].raw, "wire": format!("{:?}", conc), "class": class, "result": "result, request log, cache/ and tmp/ as specified; offline repeat served from the cache"}));
+                }
                 for (fp, detail) in mm {
                     rep.mismatch(&fp, json!({"case": cases[i].raw, "conc": format!("{:?}", conc), "detail": detail}));
                 }
